@@ -53,6 +53,12 @@ static mut STATE: Option<State> = None;
 
 thread_local! {
     static BUSY: Cell<bool> = const { Cell::new(false) };
+    /// Is *this thread* recording a footprint? (Other threads may allocate
+    /// concurrently while they start up or exit; that is not part of the
+    /// zone being created here.)
+    static RECORDING: Cell<bool> = const { Cell::new(false) };
+    /// Allocations made by this thread.
+    static MY_ALLOCS: Cell<u64> = const { Cell::new(0) };
 }
 
 fn with_state<R>(f: impl FnOnce(&mut State) -> R) -> Option<R> {
@@ -90,8 +96,11 @@ unsafe impl GlobalAlloc for Counting {
                 s.allocs += 1;
                 let serial = s.serial;
                 s.live.insert(p as usize, (layout.size(), serial));
-                if let Some(rec) = s.recording.as_mut() {
-                    rec.push((p as usize, layout.size(), serial));
+                let _ = MY_ALLOCS.try_with(|c| c.set(c.get() + 1));
+                if RECORDING.try_with(|r| r.get()).unwrap_or(false) {
+                    if let Some(rec) = s.recording.as_mut() {
+                        rec.push((p as usize, layout.size(), serial));
+                    }
                 }
             });
         }
@@ -148,11 +157,13 @@ pub fn enable() {
 /// Starts recording the allocations made from now on.
 pub fn record_start() {
     with_state(|s| s.recording = Some(Vec::new()));
+    RECORDING.with(|r| r.set(true));
 }
 
 /// Stops recording; watches the recorded allocations that are still live on
 /// behalf of `zone` and returns how many there are.
 pub fn record_finish(zone: u32) -> usize {
+    RECORDING.with(|r| r.set(false));
     with_state(|s| {
         let rec = s.recording.take().unwrap_or_default();
         let mut out = 0usize;
@@ -170,9 +181,22 @@ pub fn record_finish(zone: u32) -> usize {
     .unwrap_or_default()
 }
 
+/// How many of the allocations recorded so far are still live (recording
+/// continues).
+pub fn record_peek_live() -> usize {
+    with_state(|s| {
+        let Some(rec) = s.recording.as_ref() else { return 0 };
+        rec.iter()
+            .filter(|(addr, _, serial)| s.live.get(addr).map(|e| e.1) == Some(*serial))
+            .count()
+    })
+    .unwrap_or(0)
+}
+
 /// Stops recording without watching anything; returns how many recorded
 /// allocations are still live.
 pub fn record_discard() -> usize {
+    RECORDING.with(|r| r.set(false));
     with_state(|s| {
         let rec = s.recording.take().unwrap_or_default();
         rec.iter()
@@ -205,6 +229,11 @@ pub fn take_events() -> [Option<MemEvent>; 8] {
 
 pub fn counters() -> (u64, u64) {
     with_state(|s| (s.allocs, s.deallocs)).unwrap_or((0, 0))
+}
+
+/// Allocations made by the calling thread so far.
+pub fn my_allocs() -> u64 {
+    MY_ALLOCS.with(|c| c.get())
 }
 
 /// Forgets all watches (start of a run).
